@@ -19,6 +19,8 @@ import Compress.Proofs.Bzip2Cut
 import Compress.Proofs.BrotliCut
 import Compress.Proofs.XFlateReader
 import Compress.Proofs.BzImplCut
+import Compress.Proofs.FlateApi
+import Compress.Proofs.BzReaderApi
 
 namespace Compress.Props.C09
 open Compress Compress.XFlate
@@ -109,5 +111,188 @@ theorem C09_bzip2_reader_cut_is_ueof (bytes : List UInt8) (out : Array UInt8)
       e = .unexpectedEOF ∨
       (e = .eof ∧ 0 < k ∧ ∃ out2, Bzip2.decode (bytes.drop k) = { out := out2, verdict := .ok }) :=
   cut_class bytes out h k hk sched
+/-! ### flate.Reader and bzip2.Reader at the API: Read, Close, Reset, a failing source
+
+`Flate.Api` / `Bzip2.ReaderApi` wrap the decoder models into the exported methods (the `err` latch,
+the `done` flag, the closed marker, `Reset`, a source that fails at a byte position with an error
+of its own).  The flate theorems hold of EVERY state of the model; the bzip2 theorems of every state
+a call sequence can reach: `(Reader.run (newReader src) ops).1` for every source (data, fault
+position, error) and every list of Read / Close / Reset calls.  Tied to /repo call by call by family
+lrm and the lr scenarios of family life. -/
+
+section api
+open Compress.Flate.Api in
+/-- **flate.Reader, sticky.** Once a Read has returned an error `e` - whatever the state it was
+    called in - every later Read returns no data and `e` and changes nothing, for any number of
+    Reads (until Close or Reset). -/
+theorem C09_flate_api_sticky (r : Reader) (n : Nat) (e : AErr) (h : (r.read n).2.2 = some e) (ns : List Nat) :
+    (∀ m, (r.read n).1.read m = ((r.read n).1, [], some e)) ∧
+    Reader.run (r.read n).1 (ns.map .read) = ((r.read n).1, ns.map (fun _ => .read [] (some e))) := by
+  have hl := Compress.Proofs.FlateApi.read_latches r n e h
+  have hs : ∀ m, (r.read n).1.read m = ((r.read n).1, [], some e) := by
+    intro m
+    by_cases hd : r.done = true
+    · have := Compress.Proofs.FlateApi.read_done r hd n
+      rw [this] at h ⊢
+      cases h
+      exact Compress.Proofs.FlateApi.read_done r hd m
+    · have hd : r.done = false := by simpa using hd
+      exact Compress.Proofs.FlateApi.read_sticky _ e hl.1 (hl.2.1.trans hd) (hl.2.2.2 hd) m
+  refine ⟨hs, ?_⟩
+  induction ns with
+  | nil => rfl
+  | cons a ns ih => simp only [List.map_cons, Reader.run, Reader.step, hs a, ih]
+
+open Compress.Flate.Api in
+/-- **flate.Reader, Close.** What `Close` returns, exactly: nil iff nothing is latched, or `io.EOF`
+    is latched, or the reader is closed already; otherwise the latched error itself.  After a Read
+    that returned `e` (on a reader that was not closed): nil iff `e` is `io.EOF`, else `e`; and with
+    any other error latched the whole reader stays as it is under every further Read and Close. -/
+theorem C09_flate_close_result (r : Reader) :
+    ((r.close).2 = none ↔ (r.err = none ∨ r.err = some .eof ∨ r.done = true)) ∧
+    ((r.close).2 ≠ none → (r.close).2 = r.err) ∧
+    (∀ n e, r.done = false → (r.read n).2.2 = some e →
+      ((r.read n).1.close).2 = (if e = .eof then none else some e) ∧
+      (e ≠ .eof → ∀ ops : List Op, (∀ op ∈ ops, op.noReset = true) →
+        Reader.run (r.read n).1 ops = ((r.read n).1, ops.map (Compress.Proofs.FlateApi.stuckRes e)))) := by
+  refine ⟨Compress.Proofs.FlateApi.close_nil_iff r, Compress.Proofs.FlateApi.close_returns_err r, ?_⟩
+  intro n e hd h
+  have hl := Compress.Proofs.FlateApi.read_latches r n e h
+  have hd1 : (r.read n).1.done = false := hl.2.1.trans hd
+  refine ⟨?_, fun hne ops hn => Compress.Proofs.FlateApi.failed_forever _ e hl.1 hd1 (hl.2.2.2 hd) hne ops hn⟩
+  rw [Compress.Proofs.FlateApi.close_eq, hl.1, hd1]
+  by_cases he : e = .eof
+  · subst he; simp
+  · simp [he]
+
+open Compress.Flate.Api in
+/-- **flate.Reader, I/O errors verbatim (error identity).** Over a source that fails with the error
+    `t`, no Read and no Close ever reports `io.ErrUnexpectedEOF`, and a source error that is reported
+    is `t` itself; over a source that does not fail no source error is reported. -/
+theorem C09_flate_io_error_identity (r : Reader) (n : Nat) :
+    (∀ t, r.tag = some t → (r.read n).2.2 ≠ some .unexpectedEOF ∧ (r.close).2 ≠ some .unexpectedEOF) ∧
+    (∀ t', (r.read n).2.2 = some (.other t') ∨ (r.close).2 = some (.other t') → r.tag = some t') := by
+  have key : ∀ x : Flate.Impl.FErr, (∀ t, r.tag = some t → liftErr r.tag x ≠ .unexpectedEOF) ∧
+      (∀ t', liftErr r.tag x = .other t' → r.tag = some t') := by
+    intro x
+    cases x <;> cases ht : r.tag <;> simp [liftErr]
+  have hread : ∀ e, (r.read n).2.2 = some e → e = .closed ∨ ∃ x, e = liftErr r.tag x := by
+    intro e h
+    by_cases hd : r.done = true
+    · rw [Compress.Proofs.FlateApi.read_done r hd] at h; cases h; exact Or.inl rfl
+    · have hd : r.done = false := by simpa using hd
+      rw [Compress.Proofs.FlateApi.read_open r hd] at h
+      simp only at h
+      cases hx : (Flate.Impl.read (readFuel r.core) r.core n).2.2 with
+      | none => rw [hx] at h; cases h
+      | some x => rw [hx] at h; simp at h; exact Or.inr ⟨x, h.symm⟩
+  have hclose : ∀ e, (r.close).2 = some e → e = .closed ∨ ∃ x, e = liftErr r.tag x := by
+    intro e h
+    have h2 := Compress.Proofs.FlateApi.close_returns_err r (by rw [h]; simp)
+    rw [h] at h2
+    unfold Reader.err at h2
+    split at h2
+    · cases h2; exact Or.inl rfl
+    · cases hx : r.core.err with
+      | none => rw [hx] at h2; cases h2
+      | some x => rw [hx] at h2; simp at h2; exact Or.inr ⟨x, h2⟩
+  refine ⟨fun t ht => ⟨fun h => ?_, fun h => ?_⟩, fun t' h => ?_⟩
+  · rcases hread _ h with h1 | ⟨x, h1⟩
+    · cases h1
+    · exact (key x).1 t ht h1.symm
+  · rcases hclose _ h with h1 | ⟨x, h1⟩
+    · cases h1
+    · exact (key x).1 t ht h1.symm
+  · rcases h with h | h
+    · rcases hread _ h with h1 | ⟨x, h1⟩
+      · cases h1
+      · exact (key x).2 t' h1.symm
+    · rcases hclose _ h with h1 | ⟨x, h1⟩
+      · cases h1
+      · exact (key x).2 t' h1.symm
+
+open Compress.Bzip2.ReaderApi in
+/-- **bzip2.Reader, sticky.** In every reachable state: a Read that returns an error `e` returns no
+    data with it, and every later Read returns no data and `e` and changes nothing. -/
+theorem C09_bzip2_api_sticky (src : Src) (ops : List Op) (n : Nat) (e : AErr) (ns : List Nat) :
+    let r := (Reader.run (newReader src) ops).1
+    (r.read n).2.2 = some e →
+      (r.read n).2.1 = [] ∧ (∀ m, (r.read n).1.read m = ((r.read n).1, [], some e)) ∧
+      Reader.run (r.read n).1 (ns.map .read) = ((r.read n).1, ns.map (fun _ => .read [] (some e))) := by
+  intro r h
+  have hi : Compress.Proofs.BzReaderApi.Inv r :=
+    Compress.Proofs.BzReaderApi.inv_run _ (Compress.Proofs.BzReaderApi.inv_new src) ops
+  have hs : (r.read n).2.1 = [] ∧ ∀ m, (r.read n).1.read m = ((r.read n).1, [], some e) := by
+    by_cases hd : r.done = true
+    · have := Compress.Proofs.BzReaderApi.read_done r hd n
+      rw [this] at h ⊢
+      cases h
+      exact ⟨rfl, fun m => Compress.Proofs.BzReaderApi.read_done r hd m⟩
+    · have hd : r.done = false := by simpa using hd
+      obtain ⟨h1, h2, _⟩ := Compress.Proofs.BzReaderApi.read_sticks r hi hd n e h
+      exact ⟨h1, h2.2.2⟩
+  refine ⟨hs.1, hs.2, ?_⟩
+  induction ns with
+  | nil => rfl
+  | cons a ns ih => simp only [List.map_cons, Reader.run, Reader.step, hs.2 a, ih]
+
+open Compress.Bzip2.ReaderApi in
+/-- **bzip2.Reader, Close.** nil iff nothing is latched, `io.EOF` is latched, or the reader is closed
+    already; otherwise the latched error itself, and nothing changes.  After a Read that returned `e`
+    (reader not closed): nil iff `e` is `io.EOF`, else `e`; with any other error the reader stays as it
+    is under every further Read and Close. -/
+theorem C09_bzip2_close_result (src : Src) (ops : List Op) :
+    let r := (Reader.run (newReader src) ops).1
+    ((r.close).2 = none ↔ (r.err = none ∨ r.err = some .eof ∨ r.done = true)) ∧
+    ((r.close).2 ≠ none → r.close = (r, r.err)) ∧
+    (∀ n e, r.done = false → (r.read n).2.2 = some e →
+      ((r.read n).1.close).2 = (if e = .eof then none else some e) ∧
+      (e ≠ .eof → ∀ ops' : List Op, (∀ op ∈ ops', op.noReset = true) →
+        Reader.run (r.read n).1 ops' = ((r.read n).1, ops'.map (Compress.Proofs.BzReaderApi.stuckRes e)))) := by
+  intro r
+  have hi : Compress.Proofs.BzReaderApi.Inv r :=
+    Compress.Proofs.BzReaderApi.inv_run _ (Compress.Proofs.BzReaderApi.inv_new src) ops
+  refine ⟨Compress.Proofs.BzReaderApi.close_nil_iff r, Compress.Proofs.BzReaderApi.close_returns_err r, ?_⟩
+  intro n e hd h
+  obtain ⟨_, hst, _⟩ := Compress.Proofs.BzReaderApi.read_sticks r hi hd n e h
+  refine ⟨?_, fun hne ops' hn => Compress.Proofs.BzReaderApi.failed_forever _ e hst hne ops' hn⟩
+  rw [Compress.Proofs.BzReaderApi.close_eq, hst.2.1, hst.1]
+  by_cases he : e = .eof
+  · subst he; simp
+  · simp [he]
+
+open Compress.Bzip2.ReaderApi in
+/-- **bzip2.Reader, I/O errors verbatim (error identity).** Over a source that fails with the error
+    `t` no Read reports `io.ErrUnexpectedEOF` or `io.EOF` (the reader never learnt that the input was
+    over), and a source error that is reported is `t` itself. -/
+theorem C09_bzip2_io_error_identity (r : Reader) (n : Nat) :
+    (∀ t, r.tag = some t → (r.read n).2.2 ≠ some .unexpectedEOF ∧ (r.read n).2.2 ≠ some .eof) ∧
+    (∀ t', (r.read n).2.2 = some (.other t') → r.tag = some t') := by
+  have key : ∀ x : Bzip2.Impl.Err, (∀ t, r.tag = some t → liftErr r.tag x ≠ .unexpectedEOF ∧ liftErr r.tag x ≠ .eof) ∧
+      (∀ t', liftErr r.tag x = .other t' → r.tag = some t') := by
+    intro x
+    cases x <;> cases ht : r.tag <;> simp [liftErr]
+  have hread : ∀ e, (r.read n).2.2 = some e → e = .closed ∨ ∃ x, e = liftErr r.tag x := by
+    intro e h
+    by_cases hd : r.done = true
+    · rw [Compress.Proofs.BzReaderApi.read_done r hd] at h; cases h; exact Or.inl rfl
+    · have hd : r.done = false := by simpa using hd
+      rw [Compress.Proofs.BzReaderApi.read_open r hd] at h
+      simp only at h
+      cases hx : (Bzip2.Impl.read (Bzip2.Impl.readFuel r.core) n r.core).2.2 with
+      | none => rw [hx] at h; cases h
+      | some x => rw [hx] at h; simp at h; exact Or.inr ⟨x, h.symm⟩
+  refine ⟨fun t ht => ⟨fun h => ?_, fun h => ?_⟩, fun t' h => ?_⟩
+  · rcases hread _ h with h1 | ⟨x, h1⟩
+    · cases h1
+    · exact ((key x).1 t ht).1 h1.symm
+  · rcases hread _ h with h1 | ⟨x, h1⟩
+    · cases h1
+    · exact ((key x).1 t ht).2 h1.symm
+  · rcases hread _ h with h1 | ⟨x, h1⟩
+    · cases h1
+    · exact (key x).2 t' h1.symm
+
+end api
 
 end Compress.Props.C09
